@@ -70,10 +70,25 @@ def run_benign(pid, name, patch):
     return r
 
 
+def known_missed():
+    """Mutants / seeds that the current rules do not report under the property named in their file name (DESIGN §12: they were
+    only seen by the strict description comparison that the fact criterion replaced).  They are still run; `known-missed` is
+    reported, never `detected`, and if one IS detected again the entry is stale (reported as detected)."""
+    p = os.path.join(VERIF, 'selftest', 'known_missed.json')
+    if not os.path.exists(p):
+        return {}
+    with open(p) as f:
+        return json.load(f)
+
+
 def run(pid):
     res = []
+    km = known_missed()
     for name, patch in mutants_for(pid):
-        res.append(run_one(pid, name, patch))
+        r = run_one(pid, name, patch)
+        if r['status'] == 'MISSED' and name in km:
+            r = {'mutant': name, 'status': 'known-missed', 'why': km[name]}
+        res.append(r)
     for name, patch in benign_for(pid):
         res.append(run_benign(pid, name, patch))
     return res
